@@ -54,6 +54,8 @@ def run_online(driver, backend, nsteps, hook=None, tid=0, src="random"):
                 driver.feedback(op, res)
             if res["exc"] == "RequestTimeout" or "err" in obs or impl.TIMEOUTS[0] > t_before:
                 break      # a hung or failing index is not driven further
+            if op["op"] in ("Reopen", "Recreate") and res["exc"]:
+                break      # the index could not be opened again: nothing left to drive
     finally:
         ix.destroy()
     tsteps, abort = concrete_steps_to_trace(steps)
@@ -120,6 +122,8 @@ def run_online_multi(driver, roles, nsteps, hook=None, tid=0, src="random", pair
                 if j == 0 and hasattr(driver, "feedback"):
                     driver.feedback(op, res)
                 if res["exc"] == "RequestTimeout" or "err" in obs:
+                    alive = False
+                if eff["op"] in ("Reopen", "Recreate") and res["exc"]:
                     alive = False
     finally:
         for ix in ixs:
